@@ -18,7 +18,7 @@ inductive Cls where
   | tryValue | tryBack | kwargsSupport | cache | loops | pd2np
   deriving Repr, DecidableEq, Inhabited
 
-structure Fn where
+structure WFn where
   chain : List (Cls × PDict)
   base : Nat
   deriving Repr, Inhabited
@@ -34,7 +34,7 @@ def lastParams (cls : Cls) (ch : List (Cls × PDict)) : Option PDict :=
     * a `function` of the same type is unwrapped and its parameters, updated by `kwargs`, are taken over;
     * then the chain below is walked and every wrapper of the same type found *under* another wrapper is cut out,
       its parameters (updated by `kwargs`) being taken over. -/
-def mk (cls : Cls) (kwargs : PDict) (fn : Fn) : Fn :=
+def mk (cls : Cls) (kwargs : PDict) (fn : WFn) : WFn :=
   let (kw0, ch) := match fn.chain with
     | (c, p) :: rest => if c = cls then (p.update kwargs, rest) else (kwargs, fn.chain)
     | [] => (kwargs, [])
@@ -48,17 +48,17 @@ def mk (cls : Cls) (kwargs : PDict) (fn : Fn) : Fn :=
   { chain := (cls, kw) :: ch, base := fn.base }
 
 /-- apply a sequence of decorators, first element first (innermost) -/
-def mkMany (ds : List (Cls × PDict)) (fn : Fn) : Fn := ds.foldl (fun f d => mk d.1 d.2 f) fn
+def mkMany (ds : List (Cls × PDict)) (fn : WFn) : WFn := ds.foldl (fun f d => mk d.1 d.2 f) fn
 
 /-- python `==` of two decorated functions, ignoring the memo field: same plain function, same classes in the
 same order, equal parameter dicts -/
-def Fn.Eqv (a b : Fn) : Prop :=
+def WFn.Eqv (a b : WFn) : Prop :=
   a.base = b.base ∧ a.chain.map (·.1) = b.chain.map (·.1) ∧
   ∀ (i : Nat) (x y : Cls × PDict), a.chain[i]? = some x → b.chain[i]? = some y → PDict.Eqv x.2 y.2
 
 /-- `getargspec(W(f))`: `wrapper.fullargspec` asks the wrapped function (_decorators.py:165-169,
 _inspect.py:7-29), so the answer is the plain function's -/
-def specOf (env : Nat → Sig) (fn : Fn) : Sig := env fn.base
+def specOf (env : Nat → Sig) (fn : WFn) : Sig := env fn.base
 
 /-- `kwargs.pop('axis', 0)` -/
 def popAxis (kw : PDict) : PDict := kw.filter fun p => p.1 != "axis"
